@@ -62,10 +62,17 @@ type c10CB struct {
 }
 
 type c10Req struct {
-	Stream bool     `json:"stream"`
-	Script []string `json:"script"` // per transport call: ok | s:<code> | net | hang | bad
-	Cancel string   `json:"cancel"` // "" | before | during | backoff (all performed synchronously by the stub)
-	At     int      `json:"at"`     // transport call index the cancellation is tied to
+	Stream bool `json:"stream"`
+	// Payload: the request body ("" in the input = the historical "payload"; "-" = really empty).
+	// SKind (stream requests only): how the stream is made — "" POST with Content-Length > 0 fetched with
+	// FetchPayload(-1); "cl0": bodiless GET whose payload an earlier filter replaced by SetPayload(io.Reader)
+	// (Std().ContentLength == 0); "clneg": body of unknown length (ContentLength -1, chunked);
+	// "unk0": body of an unknown reader type (http.NewRequest leaves ContentLength 0).
+	Payload string   `json:"payload,omitempty"`
+	SKind   string   `json:"skind,omitempty"`
+	Script  []string `json:"script"` // per transport call: ok | s:<code> | net | hang | bad
+	Cancel  string   `json:"cancel"` // "" | before | during | backoff (all performed synchronously by the stub)
+	At      int      `json:"at"`     // transport call index the cancellation is tied to
 }
 
 type c10Input struct {
@@ -77,14 +84,15 @@ type c10Input struct {
 }
 
 type c10ReqObs struct {
-	Calls     int     `json:"calls"`
-	Gaps      []int64 `json:"gaps"` // ns between the return of call i and the start of call i+1
-	Result    string  `json:"result"`
-	Status    int     `json:"status"`
-	CBState   int     `json:"cbState"` // after the request: 1 closed, 3 open, 0 no breaker
-	ElapsedNs int64   `json:"elapsedNs"`
-	Panic     string  `json:"panic,omitempty"`
-	Late      bool    `json:"late,omitempty"` // did not return within the per-request guard
+	Calls     int      `json:"calls"`
+	Bodies    []string `json:"bodies"` // the request body each transport call carried (read to EOF by the stub)
+	Gaps      []int64  `json:"gaps"`   // ns between the return of call i and the start of call i+1
+	Result    string   `json:"result"`
+	Status    int      `json:"status"`
+	CBState   int      `json:"cbState"` // after the request: 1 closed, 3 open, 0 no breaker
+	ElapsedNs int64    `json:"elapsedNs"`
+	Panic     string   `json:"panic,omitempty"`
+	Late      bool     `json:"late,omitempty"` // did not return within the per-request guard
 }
 
 type c10Obs struct {
@@ -217,7 +225,11 @@ func c10Gen(r *verifh.Rand, i int) interface{} {
 		nreq = 1
 	}
 	for q := 0; q < nreq; q++ {
-		rq := c10Req{Stream: r.Bool(1, 5)}
+		rq := c10Req{Stream: r.Bool(1, 4)}
+		rq.Payload = r.Pick("", "", "x", "0123456789abcdef0123456789abcdef", "{\"k\":\"v\"}", "-")
+		if rq.Stream {
+			rq.SKind = r.Pick("", "", "cl0", "cl0", "clneg", "unk0")
+		}
 		rq.Script = c10GenScript(r, max+1, tkind, in.FailureCodes)
 		if cancelCase {
 			// Every request of a cancel case is cancelled at its first transport call (or is
@@ -250,6 +262,7 @@ type c10State struct {
 	client   stdcontext.Context
 	starts   []time.Time
 	ends     []time.Time
+	bodies   []string
 }
 
 var (
@@ -266,9 +279,16 @@ func c10Resp(code int, bad bool) *http.Response {
 }
 
 func (st *c10State) send(r *http.Request) (resp *http.Response, err error) {
+	// what a transport does first: write the request, i.e. read its body to EOF
+	body := ""
+	if r.Body != nil {
+		b, _ := io.ReadAll(io.LimitReader(r.Body, 1<<20))
+		body = string(b)
+	}
 	st.mu.Lock()
 	k := len(st.starts)
 	st.starts = append(st.starts, time.Now())
+	st.bodies = append(st.bodies, body)
 	entry := "net"
 	if k < len(st.script) {
 		entry = st.script[k]
@@ -385,12 +405,35 @@ func c10Exec(raw json.RawMessage) interface{} {
 		if rq.Cancel == "before" {
 			cancel()
 		}
-		stdr, _ := http.NewRequestWithContext(cctx, http.MethodPost, "http://client.example/x", strings.NewReader("payload"))
-		req, _ := httpprot.NewRequest(stdr)
-		if rq.Stream {
-			req.FetchPayload(-1)
-		} else {
+		payload := rq.Payload
+		switch payload {
+		case "":
+			payload = "payload"
+		case "-":
+			payload = ""
+		}
+		var req *httpprot.Request
+		switch {
+		case rq.Stream && rq.SKind == "cl0":
+			stdr, _ := http.NewRequestWithContext(cctx, http.MethodGet, "http://client.example/x", nil)
+			req, _ = httpprot.NewRequest(stdr)
 			req.FetchPayload(0)
+			req.SetPayload(io.Reader(io.NopCloser(strings.NewReader(payload)))) // what RequestAdaptor / a WASM host may do
+		case rq.Stream && (rq.SKind == "clneg" || rq.SKind == "unk0"):
+			stdr, _ := http.NewRequestWithContext(cctx, http.MethodPost, "http://client.example/x", io.NopCloser(strings.NewReader(payload)))
+			if rq.SKind == "clneg" {
+				stdr.ContentLength = -1
+			}
+			req, _ = httpprot.NewRequest(stdr)
+			req.FetchPayload(-1)
+		default:
+			stdr, _ := http.NewRequestWithContext(cctx, http.MethodPost, "http://client.example/x", strings.NewReader(payload))
+			req, _ = httpprot.NewRequest(stdr)
+			if rq.Stream {
+				req.FetchPayload(-1)
+			} else {
+				req.FetchPayload(0)
+			}
 		}
 		ctx := context.New(tracing.NoopSpan)
 		ctx.SetRequest(context.DefaultNamespace, req)
@@ -430,6 +473,7 @@ func c10Exec(raw json.RawMessage) interface{} {
 		c10Cur.Store((*c10State)(nil))
 		st.mu.Lock()
 		ro.Calls = len(st.starts)
+		ro.Bodies = append([]string{}, st.bodies...)
 		for i := 0; i+1 < len(st.starts) && i < len(st.ends); i++ {
 			ro.Gaps = append(ro.Gaps, int64(st.starts[i+1].Sub(st.ends[i])))
 		}
